@@ -38,6 +38,7 @@ using dispenso::ParentCascadeCancel;
 #endif
 
 static int g_ran;
+static int g_ranBeforeDtor;
 
 struct Gen {
   auto operator()(size_t) const {
@@ -94,12 +95,14 @@ VF_NOINLINE static void scenario(dispenso::ThreadPool& pool, Set& ts, tskit::Cal
   callUnderTest(ts);
   vf_check(g_ran == 0, "task body ran inside the scheduling call on a cancelled set");
 
+  const int ranInCall = g_ran;  // later checks are relative: each violation is attributed once
+
   ctx.restore(pool);
   ts.outstandingTaskCount_.fetch_sub(inflight, std::memory_order_relaxed);
 
 #if VF_FIN == 2
   tskit::workerRun(pool, 2);
-  vf_check(g_ran == 0, "virtual worker ran the body of a task scheduled to a cancelled set");
+  vf_check(g_ran == ranInCall, "virtual worker ran the body of a task scheduled to a cancelled set");
 #endif
 #if VF_FIN == 1
   bool done = ts.tryWait((size_t)vf_range_u32(0, 4));
@@ -109,7 +112,8 @@ VF_NOINLINE static void scenario(dispenso::ThreadPool& pool, Set& ts, tskit::Cal
   vf_check(c, "wait() on a cancelled set returns true");
   vf_check(ts.outstandingTaskCount_.load() == 0, "outstanding count is 0 after wait()");
 #endif
-  vf_check(g_ran == 0, "wait()/tryWait() ran the body of a task scheduled to a cancelled set");
+  vf_check(g_ran == ranInCall, "wait()/tryWait() ran the body of a task scheduled to a cancelled set");
+  g_ranBeforeDtor = g_ran;
 }
 
 extern "C" void vf_main() {
@@ -141,6 +145,6 @@ extern "C" void vf_main() {
     }
   }
 #endif
-  vf_check(g_ran == 0, "the destructor ran the body of a task scheduled to a cancelled set");
+  vf_check(g_ran == g_ranBeforeDtor, "the destructor ran the body of a task scheduled to a cancelled set");
   vf_reach("end of cancelled scenario");
 }
